@@ -25,6 +25,22 @@ func verifC16Token(tag string, n int) []byte {
 	return b
 }
 
+// verifC16ValueToken: the value token: one or two free digits (exact in the ParseFloat model) or one of a
+// set of concrete spellings (parsed by the real strconv.ParseFloat), valid and invalid ones.
+var verifC16Spellings = []string{"1.5", "-2e3", ".5", "0x1p-2", "NaN", "+Inf", "1_0", "1e400", "abc", "1.5.2", "-"}
+
+func verifC16ValueToken() []byte {
+	k := verifChoice("valkind", 2+len(verifC16Spellings))
+	if k >= 2 {
+		return []byte(verifC16Spellings[k-2])
+	}
+	b := verifBytes("val", k+1)
+	for _, c := range b {
+		verifAssume(verifAnd(c >= '0', c <= '9'))
+	}
+	return b
+}
+
 func verifC16IntParam(name string, def int) int {
 	if p := verifParam(name); p != "" {
 		n, err := strconv.Atoi(p)
@@ -67,17 +83,16 @@ func VerifC16Pickle() {
 	st := &verifHealthyWriter{}
 	c := verifNewConn(NewWriter(st, 4096, "k"), 2, true)
 	name := verifC16Token("name", 1+verifChoice("namelen", verifC16IntParam("maxname", 3)))
-	valTok := verifC16Token("val", 1+verifChoice("vallen", verifC16IntParam("maxval", 2)))
-	tsLen := verifC16IntParam("tslen", 0)
-	if tsLen == 0 {
-		tsLen = 1 + verifChoice("tslen", verifC16IntParam("maxts", 3))
-	}
-	tsTok := verifC16Token("ts", tsLen)
+	valTok := verifC16ValueToken()
+	// timestamp token: a concrete prefix (param "tsprefix", usually empty) followed by 1..maxts free bytes
+	// (param "tsdigits": free digits only), so that long tokens around 2^32 stay tractable
+	tsFree := verifC16Token("ts", 1+verifChoice("tslen", verifC16IntParam("maxts", 3)))
 	if verifParam("tsdigits") != "" {
-		for _, d := range tsTok {
+		for _, d := range tsFree {
 			verifAssume(verifAnd(d >= '0', d <= '9'))
 		}
 	}
+	tsTok := append([]byte(verifParam("tsprefix")), tsFree...)
 	line := append(append(append(append(append([]byte{}, name...), ' '), valTok...), ' '), tsTok...)
 
 	drops0 := c.numDropBadPickle.Count()
@@ -116,7 +131,12 @@ func VerifC16ParseDataPoint() {
 	var line []byte
 	var toks [][]byte
 	for i := 0; i < nf; i++ {
-		t := verifC16Token("tok", 1+verifChoice("toklen", 2))
+		var t []byte
+		if i == 1 {
+			t = verifC16ValueToken()
+		} else {
+			t = verifC16Token("tok", 1+verifChoice("toklen", 2))
+		}
 		toks = append(toks, t)
 		if i > 0 {
 			line = append(line, ' ')
